@@ -109,6 +109,59 @@ func c11Units(tier string, seed int64) []Unit {
 			}
 		}
 	}
+	// test cases that consume no data at all (a skip before the first draw), followed by failing ones
+	for _, sd := range seeds {
+		sd := sd
+		units = append(units, Unit{Name: fmt.Sprintf("C11/skip-before-any-draw/seed=%d", sd), Run: func(c *Ctx) {
+			prog := progPreDecide()
+			cfg := Config{Checks: 5, Seed: sd, ShrinkMS: 3, NoFailFile: true, Name: "TestC11"}
+			alpha := func(ctx string) []Beh {
+				if ctx == "pre" {
+					return []Beh{BPass, BSkip}
+				}
+				return []Beh{BPass, BFatalA, BErrorf, BSkip}
+			}
+			d := &LazyDFS{Prog: prog, Cfg: cfg, Alphabet: alpha, P: 8, MaxDev: 3}
+			c.R.Bounds = "deviations<=3 over the first 8 decision points (pre-draw and post-draw)"
+			d.Explore(c, func(log *RunLog, assign []KV, devs int) {
+				env := log.Env
+				v := log.Verdict()
+				first := env.FirstFalsified()
+				blamed := env.Blamed()
+				c.Outcome(fmt.Sprintf("%s %v", v.Class, assign), first != nil)
+				replay := map[string]any{"program": prog.Name, "assign": assign, "config": cfg.String()}
+				viol := func(clause, detail string) {
+					c.Violate(Violation{Sig: "C11 " + clause, Detail: fmt.Sprintf("%s\nTB: %s %q\ninvocations: %s", detail, v.Class, trunc(v.ErrText, 300), SummarizeInvs(env.Invs, 12)), Replay: replay, Devs: devs})
+				}
+				if log.Escaped != nil {
+					viol("escaped-panic", fmt.Sprintf("%v", log.Escaped))
+					return
+				}
+				if v.Class == "flaky" {
+					viol("flaky-reported cause=zero-draw-case-before", "Check called a deterministic property flaky (a test case that drew nothing preceded the failing one)")
+					return
+				}
+				if first == nil {
+					if log.TB.IsFail && v.Class != "only-generated" {
+						viol("failed-without-falsification", "no test case signalled a failure but the test failed")
+					}
+					return
+				}
+				if !log.TB.IsFail {
+					viol("falsification-lost kind="+first.Signalled[0].String(), "a test case signalled a failure but the test passed")
+					return
+				}
+				if blamed == nil || !blamed.Falsified() || blamed.Idx != first.Idx {
+					viol("innocent-case-blamed by=zero-draw-case", fmt.Sprintf("first falsified case #%d; case treated as falsifying: %v", first.Idx, blamed))
+					return
+				}
+				// the reproduction (next invocation) must see the very same draws
+				if blamed.Idx+1 < len(env.Invs) && env.Invs[blamed.Idx+1].Draws != blamed.Draws {
+					viol("reproduction-draws-differ", fmt.Sprintf("blamed case drew %s, its reproduction drew %s", blamed.Draws, env.Invs[blamed.Idx+1].Draws))
+				}
+			})
+		}})
+	}
 	return units
 }
 
